@@ -28,6 +28,8 @@ GETTER = {'Cp': 'get_CpoR', 'H': 'get_HoRT', 'S': 'get_SoR', 'G': 'get_GoRT'}
 A_OF = {'Cp': 1.0, 'H': 2.0, 'S': 3.0}
 
 _LIB = None
+DEFAULT_NAMES = {'A': 'A', 'B': 'B', 'C': 'C', 'D': 'D'}
+NAMES = dict(DEFAULT_NAMES)     # abstract species (A = the carrier, B / C = affecting species, D = not attached) -> real names of this case
 
 
 def _lib():
@@ -145,25 +147,25 @@ def _mk(fam, coef, via='direct', **kw):
     L = _lib()
     if fam == 'StatMech':                                  # no phase / add_gas_P_adj there
         kw = {k: v for k, v in kw.items() if k in ('misc_models', 'elements')}
-        return L.StatMech(name='A', vib_model=L.HarmonicVib(vib_wavenumbers=list(coef['wn'])), **kw)
+        return L.StatMech(name=NAMES['A'], vib_model=L.HarmonicVib(vib_wavenumbers=list(coef['wn'])), **kw)
     if fam == 'Reference':
-        return L.Reference(name='A', T_ref=298.15, HoRT_ref=1.0, **kw)
+        return L.Reference(name=NAMES['A'], T_ref=298.15, HoRT_ref=1.0, **kw)
     if via == 'from_data':
         src = _mk(fam, coef, phase=None, misc_models=None)
         Td = np.linspace(T_LOW, T_HIGH, 60)
         cp = np.array([_flat(src.get_CpoR(T=float(t)))[0] for t in Td])
         h0, s0 = _flat(src.get_HoRT(T=298.15))[0], _flat(src.get_SoR(T=298.15))[0]
         cls = {'Nasa': L.Nasa, 'Nasa9': L.Nasa9, 'Shomate': L.Shomate}[fam]
-        return cls.from_data(name='A', T=Td, CpoR=cp, T_ref=298.15, HoRT_ref=h0, SoR_ref=s0, **kw)
+        return cls.from_data(name=NAMES['A'], T=Td, CpoR=cp, T_ref=298.15, HoRT_ref=h0, SoR_ref=s0, **kw)
     if fam == 'Nasa':
-        return L.Nasa(name='A', T_low=T_LOW, T_mid=T_MID, T_high=T_HIGH,
+        return L.Nasa(name=NAMES['A'], T_low=T_LOW, T_mid=T_MID, T_high=T_HIGH,
                       a_low=list(coef['a_low']), a_high=list(coef['a_high']), **kw)
     if fam == 'Nasa9':
-        return L.Nasa9(name='A', nasas=[
+        return L.Nasa9(name=NAMES['A'], nasas=[
             L.SingleNasa9(T_low=T_LOW, T_high=T_MID, a=np.array(coef['a_low'])),
             L.SingleNasa9(T_low=T_MID, T_high=T_HIGH, a=np.array(coef['a_high']))], **kw)
     if fam == 'Shomate':
-        return L.Shomate(name='A', T_low=T_LOW, T_high=T_HIGH, a=np.array(coef['a']), **kw)
+        return L.Shomate(name=NAMES['A'], T_low=T_LOW, T_high=T_HIGH, a=np.array(coef['a']), **kw)
     raise core.MachineryError('unknown family %r' % (fam,))
 
 
@@ -174,16 +176,16 @@ def _twin(obj, fam):
     import numpy as np
     L = _lib()
     if fam == 'Nasa':
-        return L.Nasa(name='A', T_low=obj.T_low, T_mid=obj.T_mid, T_high=obj.T_high,
+        return L.Nasa(name=NAMES['A'], T_low=obj.T_low, T_mid=obj.T_mid, T_high=obj.T_high,
                       a_low=np.array(obj.a_low), a_high=np.array(obj.a_high), elements=obj.elements)
     if fam == 'Nasa9':
-        return L.Nasa9(name='A', nasas=[L.SingleNasa9(T_low=n.T_low, T_high=n.T_high, a=np.array(n.a))
+        return L.Nasa9(name=NAMES['A'], nasas=[L.SingleNasa9(T_low=n.T_low, T_high=n.T_high, a=np.array(n.a))
                                         for n in obj.nasas], elements=obj.elements)
     if fam == 'Shomate':
-        return L.Shomate(name='A', T_low=obj.T_low, T_high=obj.T_high, a=np.array(obj.a),
+        return L.Shomate(name=NAMES['A'], T_low=obj.T_low, T_high=obj.T_high, a=np.array(obj.a),
                          units=obj.units, elements=obj.elements)
     if fam == 'StatMech':
-        return L.StatMech(name='A', vib_model=copy.deepcopy(obj.vib_model), elements=obj.elements)
+        return L.StatMech(name=NAMES['A'], vib_model=copy.deepcopy(obj.vib_model), elements=obj.elements)
     raise core.MachineryError('no twin for family %r' % (fam,))
 
 
@@ -196,15 +198,22 @@ def _model(kind, slopes, occ=0):
     if kind in ('CovB', 'CovC'):
         j = kind[-1]
         sl = list(slopes[j]) if occ == 0 else [v * (-0.5 - 0.25 * occ) for v in slopes[j]]
-        return L.Cov(name_i='A', name_j=j, intervals=[0.0, 0.3, 0.6], slopes=sl,
-                     name='A' + j + (str(occ) if occ else ''))
+        return L.Cov(name_i=NAMES['A'], name_j=NAMES[j], intervals=[0.0, 0.3, 0.6], slopes=sl,
+                     name=NAMES['A'] + '/' + NAMES[j] + (str(occ) if occ else ''))
     if kind == 'P1':
         return L.ProbeTP()
     if kind == 'P2B':
-        return L.ProbeTx('B', 32.0)
+        return L.ProbeTx(NAMES['B'], 32.0)
     if kind == 'P2C':
-        return L.ProbeTx('C', 512.0)
+        return L.ProbeTx(NAMES['C'], 512.0)
     raise core.MachineryError('unknown model kind %r' % (kind,))
+
+
+def _route(name_j):
+    for r in ('B', 'C'):
+        if NAMES[r] == name_j:
+            return r
+    return '?' + str(name_j)
 
 
 def _kind(m):
@@ -212,11 +221,11 @@ def _kind(m):
     if isinstance(m, L.GasPressureAdj):
         return 'PAdj'
     if isinstance(m, L.Cov):
-        return 'Cov' + str(m.name_j)
+        return 'Cov' + _route(m.name_j)
     if isinstance(m, L.ProbeTP):
         return 'P1'
     if isinstance(m, L.ProbeTx):
-        return 'P2' + str(m.name_j)
+        return 'P2' + _route(m.name_j)
     if isinstance(m, dict):
         return 'dict'
     return 'other'
@@ -336,20 +345,30 @@ def _typed_P(P, ptype):
 
 
 def _conditions(op):
-    """kwargs that carry the coverages, and the coverage each name_j effectively gets.
-    routed: {'B_kwargs': {'x': xB}, 'C_kwargs': {'x': xC}} (documented form);  toplevel: x=xB for
-    every model;  missingC / missingBoth: nothing passed for that species - the documented default
-    of PiecewiseCovEffect.get_* is x = 0."""
+    """kwargs that carry the coverages, and the coverage each name_j effectively gets: the entry
+    '<name_j>_kwargs': {'x': ...} of THAT species, the documented default x = 0 when the
+    dictionary has no entry for it.  The dictionary may be partial in every way: entries for all
+    affecting species (routed), only B (missingC), none (missingBoth), only the carrier itself
+    (ownOnly), the carrier and B (ownAndB), all plus a species that is not attached (extra);
+    toplevel: x=xB for every model."""
     xB, xC = float(op['xB']), float(op['xC'])
+    xA = float(op.get('xA', 0.45))
+    kA, kB, kC, kD = (NAMES[r] + '_kwargs' for r in ('A', 'B', 'C', 'D'))
     form = op.get('xform', 'routed')
     if form == 'routed':
-        return {'B_kwargs': {'x': xB}, 'C_kwargs': {'x': xC}}, xB, xC
+        return {kB: {'x': xB}, kC: {'x': xC}}, xB, xC
     if form == 'toplevel':
         return {'x': xB}, xB, xB
     if form == 'missingC':
-        return {'B_kwargs': {'x': xB}}, xB, 0.0
+        return {kB: {'x': xB}}, xB, 0.0
     if form == 'missingBoth':
         return {}, 0.0, 0.0
+    if form == 'ownOnly':
+        return {kA: {'x': xA}}, 0.0, 0.0
+    if form == 'ownAndB':
+        return {kA: {'x': xA}, kB: {'x': xB}}, xB, 0.0
+    if form == 'extra':
+        return {kD: {'x': xA}, kB: {'x': xB}, kC: {'x': xC}, kA: {'x': xA}}, xB, xC
     raise core.MachineryError('unknown xform %r' % (form,))
 
 
@@ -474,6 +493,8 @@ def execute(case):
     """Run one history through the real classes.  Returns (events, mismatches)."""
     import copy
     fam, coef = case['fam'], case['coef']
+    NAMES.clear()
+    NAMES.update(case.get('names', DEFAULT_NAMES))
     slopes = case.get('slopes', GRID_SLOPES)
     events, mism = [], []
     objs = []
@@ -577,6 +598,27 @@ def _safe_execute(case):
 # --------------------------------------------------------------------------
 # case construction
 # --------------------------------------------------------------------------
+# species names: endings in every character of '_kwargs', names that are prefixes / suffixes of
+# each other, parentheses, hyphens, underscores, digits
+NAME_POOL = ('Na', 'Os', 'CO_ads', 'H_ads', 'args', 'kwargs', 'N_', 'bulk', 'Nw', 'Zr', 'Ag', 'Mg', 'Ar',
+             'CO', 'CO2', 'C', 'H', 'H2', 'H2O', 'O', 'OH', 'O-H', 'N', 'NO', 'NO2', 'CH3(S)', 'Pt(111)',
+             'CH3-CH2(S)', 'A', 'B', 'x', 'ads', 'CO_ad', 'O_')
+SUFFIX_CHARS = '_kwargs'
+
+
+def _rand_names(rnd, k=0):
+    """Distinct real names for the carrier A, the affecting species B, C and the unattached D;
+    B (every 2nd case) ends in the k-th character of '_kwargs' so that all endings occur."""
+    names = list(NAME_POOL)
+    rnd.shuffle(names)
+    if k % 2 == 0:
+        ch = SUFFIX_CHARS[(k // 2) % len(SUFFIX_CHARS)]
+        b = rnd.choice([n for n in NAME_POOL if n.endswith(ch)])
+        names.remove(b)
+        names.insert(1, b)
+    return {'A': names[0], 'B': names[1], 'C': names[2], 'D': names[3]}
+
+
 def _rand_coef(rnd, fam):
     if fam == 'Reference':
         return {}
@@ -678,9 +720,11 @@ def _rand_eval(rnd, o, big=False, fam='Nasa', k=0):
             P = 2.5
     (xB, clsB), (xC, clsC) = _rand_x(rnd), _rand_x(rnd)
     r = rnd.random()
-    xform = 'routed' if r < 0.7 else 'toplevel' if r < 0.8 else 'missingC' if r < 0.9 else 'missingBoth'
+    xform = ('routed' if r < 0.5 else 'toplevel' if r < 0.58 else 'missingC' if r < 0.66 else
+             'missingBoth' if r < 0.72 else 'ownOnly' if r < 0.82 else 'ownAndB' if r < 0.91 else 'extra')
     op = {'act': 'eval', 'o': o, 'scalar': scalar, 'Ts': Ts, 'P': P, 'ttype': ttype, 'ptype': ptype,
-          'order': order if n > 1 else 'single', 'xB': xB, 'xC': xC, 'xcls': [clsB, clsC], 'xform': xform}
+          'order': order if n > 1 else 'single', 'xB': xB, 'xC': xC, 'xcls': [clsB, clsC], 'xform': xform,
+          'xA': round(rnd.uniform(0.2, 1.0), 3)}
     if rnd.random() < 0.6:
         op['units'] = DIM_UNITS[k % len(DIM_UNITS)]
     if fam in EMPIRICAL and rnd.random() < 0.15:
@@ -713,6 +757,7 @@ def _grid_case(c, cid):
             tt = ['intarray', 'intlist', 'arange' if eq else 'intarray'][(k // 4) % 3]
         ops.append(dict(ops[1], ttype=tt))
     return {'cid': cid, 'kind': 'grid', 'fam': c['fam'], 'coef': GRID_COEF[c['fam']], 'ops': ops,
+            'names': _rand_names(random.Random(k), k),
             'sig': [c['fam'], misc, n, bool(c['scalar']), c['P4'], c['xB'], c['xC']]}
 
 
@@ -745,7 +790,7 @@ def _beh_case(h, cid, rnd, k=0):
         if o > 1 and rnd.random() < 0.5:
             ops.append(_rand_eval(rnd, rnd.randint(1, o - 1), fam=fam, k=k + ne))
             ne += 1
-    return {'cid': cid, 'kind': 'beh', 'fam': fam, 'coef': _rand_coef(rnd, fam),
+    return {'cid': cid, 'kind': 'beh', 'fam': fam, 'coef': _rand_coef(rnd, fam), 'names': _rand_names(rnd, k),
             'slopes': _rand_slopes(rnd), 'ops': ops,
             'sig': [fam, [[r['act'], r['args']] for r in h]]}
 
@@ -774,7 +819,7 @@ def _statmech_case(rnd, cid, k):
         ops.append({'act': 'deepcopy', 'src': 1} if r < 0.4 else
                    {'act': 'reload', 'src': 1, 'via': 'dict' if r < 0.7 else 'json'})
         ops.append(_rand_eval(rnd, j + 2, fam='StatMech', k=k + j + 1))
-    return {'cid': cid, 'kind': 'real', 'fam': 'StatMech',
+    return {'cid': cid, 'kind': 'real', 'fam': 'StatMech', 'names': _rand_names(rnd, k),
             'coef': {'wn': [round(rnd.uniform(200.0, 3000.0), 1) for _ in range(rnd.randint(1, 4))]},
             'slopes': _rand_slopes(rnd), 'ops': ops,
             'sig': ['StatMech', given, [[o['act'], o.get('via')] for o in ops if o['act'] != 'eval']]}
@@ -831,7 +876,7 @@ def _random_case(rnd, cid, k=0):
             continue
         nobj += 1
         ops.append(ev(nobj))
-    return {'cid': cid, 'kind': 'real', 'fam': fam, 'coef': _rand_coef(rnd, fam),
+    return {'cid': cid, 'kind': 'real', 'fam': fam, 'coef': _rand_coef(rnd, fam), 'names': _rand_names(rnd, k),
             'slopes': _rand_slopes(rnd), 'ops': ops,
             'sig': [fam, [[o['act'], o.get('phase'), o.get('flag'), o.get('given'), o.get('src'),
                            o.get('via'), o.get('kind'), o.get('container')] for o in ops if o['act'] != 'eval']]}
@@ -998,6 +1043,15 @@ def run(ctx):
                 bump('P_type', e['ptype'])
                 if carries:
                     bump('coverage_form_with_models', e['xform'])
+                ks_ = [m['k'] for m in e['ms']]
+                nm = case.get('names', DEFAULT_NAMES)
+                xb_nz = e['xB'] != [0, 0] and e['xform'] in ('routed', 'missingC', 'ownAndB', 'extra')
+                if ('CovB' in ks_ or 'P2B' in ks_) and xb_nz:
+                    bump('name_j_ending_with_nonzero_routed_coverage', nm['B'][-1])
+                if ('CovB' in ks_ or 'CovC' in ks_) and e['xform'] in ('ownOnly', 'ownAndB'):
+                    bump('own_entry_without_entry_for_an_attached_cov', case['fam'])
+                if ('CovB' in ks_ or 'CovC' in ks_) and e['xform'] == 'extra':
+                    bump('entry_for_unattached_species', case['fam'])
                     bump('nmodels', len(e['ms']))
                 if e['hasdim'] and carries:
                     bump('dimensional_units_with_models', e['units'])
@@ -1050,7 +1104,10 @@ def run(ctx):
         need = {'eval_family': ['Nasa', 'Nasa9', 'Shomate', 'StatMech'],
                 'carrier_constructed': ['Nasa', 'Nasa9', 'Shomate', 'StatMech', 'Reference'],
                 'T_type': list(FLOAT_TYPES) + list(INT_TYPES), 'P_type': ['float', 'npfloat', 'int', 'npint'],
-                'coverage_form_with_models': ['routed', 'toplevel', 'missingC', 'missingBoth'],
+                'coverage_form_with_models': ['routed', 'toplevel', 'missingC', 'missingBoth', 'ownOnly', 'ownAndB', 'extra'],
+                'name_j_ending_with_nonzero_routed_coverage': list(SUFFIX_CHARS),
+                'own_entry_without_entry_for_an_attached_cov': ['Nasa', 'Nasa9', 'Shomate', 'StatMech'],
+                'entry_for_unattached_species': ['Nasa', 'Nasa9', 'Shomate', 'StatMech'],
                 'dimensional_units_with_models': list(DIM_UNITS), 'options': ['S_elements', 'verbose'],
                 'two_cov_same_name_j': ['Nasa', 'Nasa9', 'Shomate', 'StatMech'],
                 'two_cov_different_name_j': ['Nasa', 'Nasa9', 'Shomate', 'StatMech'],
